@@ -18,6 +18,7 @@ import (
 	"sort"
 	"strings"
 	"sync"
+	"sync/atomic"
 	"testing"
 	"time"
 
@@ -80,42 +81,70 @@ type input struct {
 
 // ---- fixed names and data -----------------------------------------------------------------
 
-const (
-	zTest   = "test."
-	zBank   = "bank.test."
-	zAtt    = "attacker.test."
-	victim  = "victim.bank.test."
-	nohost  = "nohost.bank.test."
-	wwwBank = "www.bank.test."
-	nsBank  = "ns.bank.test."
-	trapNS  = "nstrap.attacker.test."
-	offPath = "zzz.attacker.test."
+// names of one world.  Every world has its own top-level label instead of the model's
+// "test": resolvers of finished worlds (and of other checks running on this machine) may
+// still have packets in flight to loopback ports the kernel has handed to a new world's
+// servers, so server-log evidence only counts queries for this world's own names.
+type names struct {
+	tld, zTest, zBank, zAtt, victim, nohost, wwwBank, nsBank, trapNS, offPath string
+}
 
+var worldSeq atomic.Uint64
+
+func mkNames() names {
+	tld := fmt.Sprintf("t%x-%x", os.Getpid()&0xffffff, worldSeq.Add(1))
+	z := tld + "."
+	return names{tld: tld, zTest: z, zBank: "bank." + z, zAtt: "attacker." + z, victim: "victim.bank." + z,
+		nohost: "nohost.bank." + z, wwwBank: "www.bank." + z, nsBank: "ns.bank." + z,
+		trapNS: "nstrap.attacker." + z, offPath: "zzz.attacker." + z}
+}
+
+// canon spells a name (or a text containing names) with the model's "test" label, so keys,
+// messages and replay files do not depend on the world's private label.
+func (n names) canon(s string) string { return strings.ReplaceAll(s, n.tld+".", "test.") }
+
+func (n names) subZone(i int) string { return fmt.Sprintf("sub%d.%s", i, n.zAtt) }
+func (n names) subHost(i int) string { return "h." + n.subZone(i) }
+func (n names) wName(i int) string   { return fmt.Sprintf("w%d.%s", i, n.zAtt) }
+func (n names) trigger(i int, m move) string {
+	if refKinds[m.Kind] {
+		return n.subHost(i)
+	}
+	return n.wName(i)
+}
+
+// mine reports how many queries for this world's own names a server has logged.
+func (n names) mine(s *authkit.Server) int {
+	c := 0
+	for _, e := range s.Log() {
+		if authkit.IsSub(e.Q.Name, n.zTest) {
+			c++
+		}
+	}
+	return c
+}
+
+const (
 	truthVictim = "192.0.2.200"
 	truthWww    = "192.0.2.201"
 	poisonIP    = "6.6.6.6"  // carried by Z's forged records
 	spoofID     = "6.6.6.7"  // carried by the wrong-ID datagram
 	spoofQ      = "6.6.6.8"  // carried by the wrong-question datagram
 	spoofIDQ    = "6.6.6.9"  // wrong ID and wrong question
+	spoofTCP    = "6.6.6.10" // wrong ID on the TCP retry (after a truncated UDP reply)
 	trapServed  = "6.6.6.66" // whatever the adversary's second server (the trap) answers
 	trapIP      = "192.0.2.66"
 	loopIP      = "127.0.0.1"
 )
 
+// blackHole is where the resolver of a finished world is sent (discard port, nobody listens).
+const blackHole = "127.0.0.1:9"
+
 var refKinds = map[string]bool{"ref_ok": true, "ref_self": true, "ref_up": true, "ref_side": true,
 	"ref_mixed": true, "ref_mixed2": true, "ref_class": true, "ref_offpath": true}
 
-func subZone(i int) string { return fmt.Sprintf("sub%d.%s", i, zAtt) }
-func subHost(i int) string { return "h." + subZone(i) }
-func wName(i int) string   { return fmt.Sprintf("w%d.%s", i, zAtt) }
-func wAddr(i int) string   { return fmt.Sprintf("198.51.100.%d", 10+i) }
-func hAddr(i int) string   { return fmt.Sprintf("198.51.100.%d", 20+i) }
-func trigger(i int, m move) string {
-	if refKinds[m.Kind] {
-		return subHost(i)
-	}
-	return wName(i)
-}
+func wAddr(i int) string { return fmt.Sprintf("198.51.100.%d", 10+i) }
+func hAddr(i int) string { return fmt.Sprintf("198.51.100.%d", 20+i) }
 
 func lc(s string) string { return strings.ToLower(dns.Fqdn(s)) }
 
@@ -148,6 +177,8 @@ func mustRR(s string) dns.RR {
 // ---- one scripted world -------------------------------------------------------------------
 
 type world struct {
+	names
+	dead     atomic.Bool // set when the world is torn down: its resolver is sent to a black hole
 	n        *authkit.Net
 	signed   bool
 	moves    []move
@@ -180,38 +211,59 @@ func (w *world) dialled(addr string) bool {
 	return false
 }
 
+// newWorld builds the namespace.  miekg/dns refuses to sign with a key whose tag is 0
+// (authkit panics on it; 1 key in 65536): such a world is thrown away and rebuilt.
 func newWorld(signed bool, moves []move) (*world, error) {
+	for try := 0; ; try++ {
+		w, err := newWorldOnce(signed, moves)
+		if err != nil || try > 5 {
+			return w, err
+		}
+		ok := true
+		for _, z := range w.n.Zones {
+			if z.Signed && len(z.Keys) > 0 && z.Keys[0].RR.KeyTag() == 0 {
+				ok = false
+			}
+		}
+		if ok {
+			return w, nil
+		}
+		w.stop()
+	}
+}
+
+func newWorldOnce(signed bool, moves []move) (*world, error) {
 	n, err := authkit.NewNet(signed)
 	if err != nil {
 		return nil, err
 	}
-	w := &world{n: n, signed: signed, moves: moves, localIP: localIfaceIP(), hookHits: make([]int, len(moves))}
+	w := &world{names: mkNames(), n: n, signed: signed, moves: moves, localIP: localIfaceIP(), hookHits: make([]int, len(moves))}
 	o := authkit.DelegateOpts{Signed: signed, PublishDS: signed}
-	if _, _, err = n.Delegate(zTest, o); err != nil {
+	if _, _, err = n.Delegate(w.zTest, o); err != nil {
 		return nil, err
 	}
-	bank, bankSrv, err := n.Delegate(zBank, o)
+	bank, bankSrv, err := n.Delegate(w.zBank, o)
 	if err != nil {
 		return nil, err
 	}
-	att, attSrv, err := n.Delegate(zAtt, o)
+	att, attSrv, err := n.Delegate(w.zAtt, o)
 	if err != nil {
 		return nil, err
 	}
 	w.bankSrv, w.attSrv = bankSrv, attSrv
-	bank.Add(victim+" 300 IN A "+truthVictim, wwwBank+" 300 IN A "+truthWww)
+	bank.Add(w.victim+" 300 IN A "+truthVictim, w.wwwBank+" 300 IN A "+truthWww)
 	for i := range moves {
 		k := i + 1
-		att.Add(wName(k) + " 300 IN A " + wAddr(k))
-		sub, srv, err := n.Delegate(subZone(k), o)
+		att.Add(w.wName(k) + " 300 IN A " + wAddr(k))
+		sub, srv, err := n.Delegate(w.subZone(k), o)
 		if err != nil {
 			return nil, err
 		}
-		sub.Add(subHost(k) + " 300 IN A " + hAddr(k))
+		sub.Add(w.subHost(k) + " 300 IN A " + hAddr(k))
 		w.subSrv = append(w.subSrv, srv)
 		ip := ""
-		if tr := n.GroundTruth(dns.Question{Name: "ns." + subZone(k), Qtype: dns.TypeA, Qclass: dns.ClassINET}); len(tr.Answer) > 0 {
-			ip = tr.Answer[0].(*dns.A).A.String()
+		if c := att.Cuts[w.subZone(k)]; c != nil && len(c.Glue) > 0 {
+			ip = c.Glue[0].(*dns.A).A.String()
 		}
 		w.subIP = append(w.subIP, ip)
 	}
@@ -243,13 +295,14 @@ func newWorld(signed bool, moves []move) (*world, error) {
 }
 
 func (w *world) stop() {
+	w.dead.Store(true)
 	w.n.Stop()
 	w.trap.Stop()
 	w.canary.Stop()
 }
 
 // preDatagrams builds the raw datagrams Z sends ahead of its real reply.
-func preDatagrams(pre string, req *dns.Msg) [][]byte {
+func (w *world) preDatagrams(pre string, req *dns.Msg) [][]byte {
 	q := req.Question[0]
 	var m *dns.Msg
 	switch pre {
@@ -260,7 +313,7 @@ func preDatagrams(pre string, req *dns.Msg) [][]byte {
 		m.Answer = []dns.RR{mustRR(lc(q.Name) + " 300 IN A " + spoofID)}
 	case "wrongq", "wrongidq":
 		fake := new(dns.Msg)
-		fake.SetQuestion(victim, dns.TypeA)
+		fake.SetQuestion(w.victim, dns.TypeA)
 		fake.Id = req.Id
 		ip := spoofQ
 		if pre == "wrongidq" {
@@ -269,7 +322,7 @@ func preDatagrams(pre string, req *dns.Msg) [][]byte {
 		}
 		m = new(dns.Msg)
 		m.SetReply(fake)
-		m.Answer = []dns.RR{mustRR(victim + " 300 IN A " + ip)}
+		m.Answer = []dns.RR{mustRR(w.victim + " 300 IN A " + ip)}
 	default:
 		return nil
 	}
@@ -306,15 +359,31 @@ func (w *world) attackerHook(ex *authkit.Exchange) {
 		k := i + 1
 		isRef := refKinds[m.Kind]
 		switch {
-		case !isRef && name == wName(k) && ex.Q.Qtype == dns.TypeA:
-		case isRef && ex.Truth.Kind == "referral" && lc(ex.Truth.Cut) == subZone(k):
+		case !isRef && name == w.wName(k) && ex.Q.Qtype == dns.TypeA:
+		case isRef && ex.Truth.Kind == "referral" && lc(ex.Truth.Cut) == w.subZone(k):
 		default:
 			continue
 		}
 		w.mu.Lock()
 		w.hookHits[i]++
 		w.mu.Unlock()
-		ex.Pre = preDatagrams(m.Pre, ex.Req)
+		if m.Pre == "tcpwrongid" {
+			// strict ID on streams: truncate on UDP, then answer the TCP retry under a foreign ID
+			t := new(dns.Msg)
+			t.SetReply(ex.Req)
+			_, opt := splitOPT(ex.Resp.Extra)
+			t.Extra = opt
+			if ex.Proto == "udp" {
+				t.Truncated = true
+			} else {
+				t.Id = ex.Req.Id ^ 0x0101
+				t.Authoritative = true
+				t.Answer = []dns.RR{mustRR(name + " 300 IN A " + spoofTCP)}
+			}
+			ex.Resp = t
+			return
+		}
+		ex.Pre = w.preDatagrams(m.Pre, ex.Req)
 		w.tamper(ex, k, m)
 		return
 	}
@@ -323,23 +392,23 @@ func (w *world) attackerHook(ex *authkit.Exchange) {
 func (w *world) tamper(ex *authkit.Exchange, k int, m move) {
 	r := ex.Resp
 	glue, opt := splitOPT(r.Extra)
-	poisonV := mustRR(victim + " 300 IN A " + poisonIP)
-	trapGlue := mustRR(trapNS + " 300 IN A " + trapIP)
-	nsTo := func(owner string) dns.RR { return mustRR(owner + " 300 IN NS " + trapNS) }
+	poisonV := mustRR(w.victim + " 300 IN A " + poisonIP)
+	trapGlue := mustRR(w.trapNS + " 300 IN A " + trapIP)
+	nsTo := func(owner string) dns.RR { return mustRR(owner + " 300 IN NS " + w.trapNS) }
 	switch m.Kind {
 	case "honest":
 	case "ans_foreign":
 		r.Answer = append(r.Answer, poisonV)
 	case "cname_out":
-		r.Answer = []dns.RR{mustRR(wName(k) + " 300 IN CNAME " + victim), poisonV}
+		r.Answer = []dns.RR{mustRR(w.wName(k) + " 300 IN CNAME " + w.victim), poisonV}
 	case "cname_bare":
-		r.Answer = []dns.RR{mustRR(wName(k) + " 300 IN CNAME " + victim)}
+		r.Answer = []dns.RR{mustRR(w.wName(k) + " 300 IN CNAME " + w.victim)}
 	case "auth_foreign":
-		r.Ns = []dns.RR{nsTo(zBank)}
+		r.Ns = []dns.RR{nsTo(w.zBank)}
 		glue = []dns.RR{trapGlue, poisonV}
 	case "neg_foreign":
 		r.Answer = nil
-		r.Ns = []dns.RR{mustRR(zBank + " 300 IN SOA ns.bank.test. hostmaster.bank.test. 1 3600 600 86400 60")}
+		r.Ns = []dns.RR{mustRR(w.zBank + " 300 IN SOA ns.bank.test. hostmaster.bank.test. 1 3600 600 86400 60")}
 		glue = []dns.RR{poisonV}
 	case "ref_ok":
 		switch m.Glue {
@@ -347,34 +416,34 @@ func (w *world) tamper(ex *authkit.Exchange, k int, m move) {
 		case "out": // NS host outside the delegating zone, with "glue" for it
 			for _, rr := range r.Ns {
 				if ns, ok := rr.(*dns.NS); ok {
-					ns.Ns = nsBank
+					ns.Ns = w.nsBank
 				}
 			}
 			r.Ns = dropSigs(r.Ns, dns.TypeNS)
-			glue = []dns.RR{mustRR(nsBank + " 300 IN A " + trapIP)}
+			glue = []dns.RR{mustRR(w.nsBank + " 300 IN A " + trapIP)}
 		case "loop":
-			glue = []dns.RR{mustRR("ns." + subZone(k) + " 300 IN A " + loopIP)}
+			glue = []dns.RR{mustRR("ns." + w.subZone(k) + " 300 IN A " + loopIP)}
 		case "local":
-			glue = []dns.RR{mustRR("ns." + subZone(k) + " 300 IN A " + w.localIP)}
+			glue = []dns.RR{mustRR("ns." + w.subZone(k) + " 300 IN A " + w.localIP)}
 		}
 	case "ref_self":
-		r.Ns, glue = []dns.RR{nsTo(zAtt)}, []dns.RR{trapGlue}
+		r.Ns, glue = []dns.RR{nsTo(w.zAtt)}, []dns.RR{trapGlue}
 	case "ref_up":
-		r.Ns, glue = []dns.RR{nsTo(zTest)}, []dns.RR{trapGlue}
+		r.Ns, glue = []dns.RR{nsTo(w.zTest)}, []dns.RR{trapGlue}
 	case "ref_side":
-		r.Ns, glue = []dns.RR{nsTo(zBank)}, []dns.RR{trapGlue}
+		r.Ns, glue = []dns.RR{nsTo(w.zBank)}, []dns.RR{trapGlue}
 	case "ref_mixed":
-		r.Ns = append(r.Ns, nsTo(zBank))
+		r.Ns = append(r.Ns, nsTo(w.zBank))
 		glue = append(glue, trapGlue)
 	case "ref_mixed2":
-		r.Ns = append([]dns.RR{nsTo(zBank)}, r.Ns...)
+		r.Ns = append([]dns.RR{nsTo(w.zBank)}, r.Ns...)
 		glue = append(glue, trapGlue)
 	case "ref_class":
-		ns := nsTo(subZone(k))
+		ns := nsTo(w.subZone(k))
 		ns.Header().Class = dns.ClassCHAOS
 		r.Ns, glue = []dns.RR{ns}, []dns.RR{trapGlue}
 	case "ref_offpath":
-		r.Ns, glue = []dns.RR{nsTo(offPath)}, []dns.RR{trapGlue}
+		r.Ns, glue = []dns.RR{nsTo(w.offPath)}, []dns.RR{trapGlue}
 	}
 	r.Extra = append(glue, opt...)
 }
@@ -392,7 +461,7 @@ func dropSigs(rrs []dns.RR, covered uint16) []dns.RR {
 
 // ---- symbols: the model's abstract data <-> the namespace's concrete data -----------------
 
-func nameOf(labels []string) string { // root-first label tuple -> fqdn
+func nameOf(labels []string) string { // root-first label tuple -> fqdn (canonical spelling)
 	if len(labels) == 0 {
 		return "."
 	}
@@ -411,7 +480,7 @@ func (w *world) symbolOf(ip string) string {
 		return "t_www"
 	case poisonIP, trapServed:
 		return "poison"
-	case spoofID, spoofQ, spoofIDQ:
+	case spoofID, spoofQ, spoofIDQ, spoofTCP:
 		return "spoof"
 	}
 	for i := range w.moves {
@@ -422,7 +491,7 @@ func (w *world) symbolOf(ip string) string {
 			return "t_h"
 		}
 	}
-	if tr := w.n.GroundTruth(dns.Question{Name: nsBank, Qtype: dns.TypeA, Qclass: dns.ClassINET}); len(tr.Answer) > 0 &&
+	if tr := w.n.GroundTruth(dns.Question{Name: w.nsBank, Qtype: dns.TypeA, Qclass: dns.ClassINET}); len(tr.Answer) > 0 &&
 		tr.Answer[0].(*dns.A).A.String() == ip {
 		return "a_bank"
 	}
@@ -448,7 +517,7 @@ func (w *world) addrSymbol(addr string) string {
 			return fmt.Sprintf("a_sub%d", i+1)
 		}
 	}
-	for zone, sym := range map[string]string{zTest: "a_test", zBank: "a_bank", zAtt: "a_att"} {
+	for zone, sym := range map[string]string{w.zTest: "a_test", w.zBank: "a_bank", w.zAtt: "a_att"} {
 		ns := "ns." + zone
 		if tr := w.n.GroundTruth(dns.Question{Name: ns, Qtype: dns.TypeA, Qclass: dns.ClassINET}); len(tr.Answer) > 0 {
 			if a, ok := tr.Answer[0].(*dns.A); ok && a.A.String() == host {
@@ -464,12 +533,12 @@ func (w *world) briefOfReal(rrs []dns.RR) []string {
 	for _, rr := range rrs {
 		switch v := rr.(type) {
 		case *dns.A:
-			out = append(out, lc(v.Hdr.Name)+" A "+w.symbolOf(v.A.String()))
+			out = append(out, w.canon(lc(v.Hdr.Name))+" A "+w.symbolOf(v.A.String()))
 		case *dns.CNAME:
-			out = append(out, lc(v.Hdr.Name)+" CNAME "+lc(v.Target))
+			out = append(out, w.canon(lc(v.Hdr.Name))+" CNAME "+w.canon(lc(v.Target)))
 		case *dns.RRSIG, *dns.OPT:
 		default:
-			out = append(out, lc(rr.Header().Name)+" "+dns.TypeToString[rr.Header().Rrtype])
+			out = append(out, w.canon(lc(rr.Header().Name))+" "+dns.TypeToString[rr.Header().Rrtype])
 		}
 	}
 	sort.Strings(out)
@@ -525,7 +594,7 @@ func (w *world) foreignLies(r *dns.Msg) []dns.RR {
 	}
 	for _, rr := range r.Answer {
 		h := rr.Header()
-		if h.Rrtype == dns.TypeRRSIG || authkit.IsSub(h.Name, zAtt) {
+		if h.Rrtype == dns.TypeRRSIG || authkit.IsSub(h.Name, w.zAtt) {
 			continue
 		}
 		tr := w.n.GroundTruth(dns.Question{Name: lc(h.Name), Qtype: h.Rrtype, Qclass: h.Class})
@@ -559,6 +628,8 @@ func spoofMarks(r *dns.Msg) []string {
 					out = append(out, "wrongq")
 				case spoofIDQ:
 					out = append(out, "wrongidq")
+				case spoofTCP:
+					out = append(out, "tcpwrongid")
 				}
 			}
 		}
@@ -596,13 +667,13 @@ type exchangeLog struct {
 	Extra []string `json:"additional,omitempty"`
 }
 
-func rrStrings(rrs []dns.RR) []string {
+func (n names) rrStrings(rrs []dns.RR) []string {
 	var out []string
 	for _, rr := range rrs {
 		if rr.Header().Rrtype == dns.TypeRRSIG || rr.Header().Rrtype == dns.TypeOPT {
 			continue
 		}
-		out = append(out, strings.Join(strings.Fields(rr.String()), " "))
+		out = append(out, n.canon(strings.Join(strings.Fields(rr.String()), " ")))
 	}
 	return out
 }
@@ -676,7 +747,13 @@ func (rn *runner) runScript(sc scriptIn, variant string, minLevel int) error {
 	}
 	inner := w.n.Mapper()
 	srv, _ := pipe.NewResolverServer(pipe.ResolverOpts{RootAddr: w.n.RootSrv.Addr, RootKeys: keys, DNSSEC: signed, Dir: dir,
-		Mapper: func(addr string) string { w.noteDial(addr); return inner(addr) },
+		Mapper: func(addr string) string {
+			if w.dead.Load() {
+				return blackHole // the world is gone: nothing of it may reach the next world's sockets
+			}
+			w.noteDial(addr)
+			return inner(addr)
+		},
 		Mutate: func(c *config.Config) {
 			c.QnameMinLevel = minLevel
 			c.CacheSize = 1024
@@ -690,9 +767,9 @@ func (rn *runner) runScript(sc scriptIn, variant string, minLevel int) error {
 		q.SetEdns0(1232, signed)
 		q.CheckingDisabled = cd
 		r := pipe.Ask(srv, q, "udp", client)
-		e := exchangeLog{Phase: phase, Q: name, CD: cd, Rcode: rcSym(r)}
+		e := exchangeLog{Phase: phase, Q: w.canon(name), CD: cd, Rcode: rcSym(r)}
 		if r != nil {
-			e.Ans, e.Ns, e.Extra = rrStrings(r.Answer), rrStrings(r.Ns), rrStrings(r.Extra)
+			e.Ans, e.Ns, e.Extra = w.rrStrings(r.Answer), w.rrStrings(r.Ns), w.rrStrings(r.Extra)
 		}
 		xlog = append(xlog, e)
 		return r
@@ -713,14 +790,47 @@ func (rn *runner) runScript(sc scriptIn, variant string, minLevel int) error {
 	// predicates evaluated on every client-visible reply
 	judge := func(phase string, culprit string, r *dns.Msg) {
 		for _, rr := range w.foreignLies(r) {
-			violate("relayed-foreign-answer|"+phase+"|"+culprit,
-				fmt.Sprintf("%s reply carries %q in the answer section: owned outside Z=%s and not the owner zone's data", phase,
-					strings.Join(strings.Fields(rr.String()), " "), zAtt))
+			violate("relayed-foreign-answer|"+w.canon(phase)+"|"+culprit,
+				fmt.Sprintf("%s reply carries %q in the answer section: owned outside Z=attacker.test. and not the owner zone's data", w.canon(phase),
+					w.canon(strings.Join(strings.Fields(rr.String()), " "))))
 		}
 		for _, pre := range spoofMarks(r) {
-			violate("unmatched-datagram-accepted|"+pre+"|"+phase,
-				fmt.Sprintf("%s reply carries data that only the %s datagram (not matching the outstanding ID/question) contained", phase, pre))
+			violate("unmatched-datagram-accepted|"+pre+"|"+w.canon(phase),
+				fmt.Sprintf("%s reply carries data that only the %s datagram (not matching the outstanding ID/question) contained", w.canon(phase), pre))
 		}
+	}
+
+	// what the resolver dialled since the last look (the mapper sees every advertised address
+	// before the dial); attributed to the move / phase that was being played
+	seenDials, seenTrapQ, seenCanaryQ := 0, 0, 0
+	checkDials := func(culprit string) {
+		w.mu.Lock()
+		fresh := append([]string(nil), w.dials[seenDials:]...)
+		seenDials = len(w.dials)
+		w.mu.Unlock()
+		has := func(ip string) bool {
+			for _, d := range fresh {
+				if d == net.JoinHostPort(ip, "53") {
+					return true
+				}
+			}
+			return false
+		}
+		tq, cq := w.mine(w.trap), w.mine(w.canary)
+		if has(loopIP) {
+			violate("unroutable-glue-dialled|loopback|"+culprit, "the resolver dialled 127.0.0.1:53, which it learnt only from glue")
+		}
+		if w.localIP != "" && has(w.localIP) {
+			violate("unroutable-glue-dialled|local-interface|"+culprit, "the resolver dialled its own interface address "+w.localIP+":53, which it learnt only from glue")
+		}
+		if cq > seenCanaryQ {
+			violate("unroutable-glue-dialled|canary|"+culprit, "the canary standing on the loopback / local-interface address received a query")
+		}
+		if has(trapIP) || tq > seenTrapQ {
+			violate("forbidden-server-used|"+culprit,
+				fmt.Sprintf("the resolver contacted %s, an address it could learn only from out-of-bailiwick glue or from a referral it must reject (trap got %d queries)", trapIP, tq-seenTrapQ))
+		}
+		seenTrapQ, seenCanaryQ = tq, cq
 	}
 
 	expReply, altReply := map[string]replyExp{}, map[string]replyExp{}
@@ -732,13 +842,13 @@ func (rn *runner) runScript(sc scriptIn, variant string, minLevel int) error {
 	}
 	for i, m := range sc.Script {
 		k := i + 1
-		name := trigger(k, m)
+		name := w.trigger(k, m)
 		culprit := m.Kind
 		if m.Glue != "" && m.Glue != "na" {
 			culprit += "/" + m.Glue
 		}
 		for _, phase := range []string{"attack", "repeat"} {
-			bankBefore := w.bankSrv.Queries()
+			bankBefore := len(w.bankSrv.Log())
 			client := fmt.Sprintf("203.0.113.%d", 10*k+map[string]int{"attack": 1, "repeat": 2}[phase])
 			r := query(phase, name, signed, client)
 			judge(phase, culprit, r)
@@ -759,7 +869,7 @@ func (rn *runner) runScript(sc scriptIn, variant string, minLevel int) error {
 			if m.Kind == "cname_out" || m.Kind == "cname_bare" {
 				asked := false
 				for _, e := range w.bankSrv.Log()[bankBefore:] {
-					if lc(e.Q.Name) == victim && e.Q.Qtype == dns.TypeA {
+					if lc(e.Q.Name) == w.victim && e.Q.Qtype == dns.TypeA {
 						asked = true
 					}
 				}
@@ -770,6 +880,7 @@ func (rn *runner) runScript(sc scriptIn, variant string, minLevel int) error {
 				}
 			}
 		}
+		checkDials(culprit)
 	}
 
 	// victim queries, from another client; in the signed world with CD (the attack's cache
@@ -778,15 +889,15 @@ func (rn *runner) runScript(sc scriptIn, variant string, minLevel int) error {
 	if signed {
 		cds = []bool{true, false}
 	}
-	vnames := []string{victim, nohost, wwwBank, nsBank}
+	vnames := []string{w.victim, w.nohost, w.wwwBank, w.nsBank}
 	for _, cd := range cds {
 		for vi, vn := range vnames {
-			trapBefore := w.trap.Queries()
+			trapBefore := w.mine(w.trap)
 			r := query("victim", vn, cd, "203.0.113.77")
 			judge("victim:"+vn, kinds, r)
-			if w.trap.Queries() > trapBefore {
-				violate("victim-query-served-by-adversary|"+vn+"|"+kinds,
-					fmt.Sprintf("the later query for %s was taken to the adversary's server", vn))
+			if w.mine(w.trap) > trapBefore {
+				violate("victim-query-served-by-adversary|"+w.canon(vn)+"|"+kinds,
+					fmt.Sprintf("the later query for %s was taken to the adversary's server", w.canon(vn)))
 			}
 			tr := w.n.GroundTruth(dns.Question{Name: vn, Qtype: dns.TypeA, Qclass: dns.ClassINET})
 			want := "OK"
@@ -799,10 +910,12 @@ func (rn *runner) runScript(sc scriptIn, variant string, minLevel int) error {
 				rn.res.Count("victim_truth", 1)
 			case got == "SERVFAIL":
 				rn.res.Count("victim_servfail", 1)
-				rn.res.DriftNote("victim %s cd=%v [%s %s]: SERVFAIL instead of the truth (fail-closed, no predicate broken)", vn, cd, sk, variant)
+				rn.res.DriftNote("victim %s cd=%v [%s %s]: SERVFAIL instead of the truth (fail-closed, no predicate broken)", w.canon(vn), cd, sk, variant)
 			default:
+				// neither the victim's real data / real non-existence nor a failure
 				rn.res.Count("victim_other", 1)
-				rn.res.DriftNote("victim %s cd=%v [%s %s]: %s with %d answers, truth is %s", vn, cd, sk, variant, got, len(answerOf(r)), tr.Kind)
+				violate("victim-answer-not-truth|"+w.canon(vn)+"|"+kinds,
+					fmt.Sprintf("the later query for %s (cd=%v) returned %s with %d answers; the owner zone's truth is %s", w.canon(vn), cd, got, len(answerOf(r)), tr.Kind))
 			}
 			if vi < len(sc.Victims) && cd == cds[0] {
 				e := sc.Victims[vi]
@@ -810,30 +923,17 @@ func (rn *runner) runScript(sc scriptIn, variant string, minLevel int) error {
 				altOK := vi < len(sc.AltVictims) && got == sc.AltVictims[vi].Rc &&
 					strings.Join(g, ";") == strings.Join(briefOfModel(sc.AltVictims[vi].Ans), ";")
 				if (got != e.Rc || strings.Join(g, ";") != strings.Join(m, ";")) && !altOK {
-					rn.res.DriftNote("victim %s [%s %s]: model %s %v, code %s %v", vn, sk, variant, e.Rc, m, got, g)
+					rn.res.DriftNote("victim %s [%s %s]: model %s %v, code %s %v", w.canon(vn), sk, variant, e.Rc, m, got, g)
 					rn.res.Count("drift_victim", 1)
 				}
 			}
 		}
 	}
 
-	// what the resolver dialled (the mapper sees every advertised address before the dial)
-	if w.dialled(net.JoinHostPort(loopIP, "53")) {
-		violate("unroutable-glue-dialled|loopback|"+kinds, "the resolver dialled 127.0.0.1:53, which it learnt only from glue")
-	}
-	if w.localIP != "" && w.dialled(net.JoinHostPort(w.localIP, "53")) {
-		violate("unroutable-glue-dialled|local-interface|"+kinds, "the resolver dialled its own interface address "+w.localIP+":53, which it learnt only from glue")
-	}
-	if w.canary.Queries() > 0 {
-		violate("unroutable-glue-dialled|canary|"+kinds, "the canary standing on the loopback / local-interface address received a query")
-	}
-	if w.dialled(net.JoinHostPort(trapIP, "53")) || w.trap.Queries() > 0 {
-		violate("forbidden-server-used|"+kinds,
-			fmt.Sprintf("the resolver contacted %s, an address it could learn only from out-of-bailiwick glue or from a referral it must reject (trap got %d queries)", trapIP, w.trap.Queries()))
-	}
+	checkDials("victims-after|" + kinds)
 	for i, m := range sc.Script {
 		if m.Kind == "ref_mixed" || m.Kind == "ref_mixed2" || m.Kind == "ref_class" {
-			if w.subSrv[i].Queries() > 0 || (w.subIP[i] != "" && w.dialled(net.JoinHostPort(w.subIP[i], "53"))) {
+			if w.mine(w.subSrv[i]) > 0 || (w.subIP[i] != "" && w.dialled(net.JoinHostPort(w.subIP[i], "53"))) {
 				violate("bad-referral-accepted|"+m.Kind,
 					fmt.Sprintf("the child's server was contacted although Z only ever sent a %s referral for it", m.Kind))
 			}
@@ -841,6 +941,17 @@ func (rn *runner) runScript(sc scriptIn, variant string, minLevel int) error {
 		w.mu.Lock()
 		hits := w.hookHits[i]
 		w.mu.Unlock()
+		if m.Pre == "tcpwrongid" {
+			tcpHits := 0
+			for _, e := range w.attSrv.Log() {
+				if e.Proto == "tcp" && authkit.IsSub(e.Q.Name, w.zTest) {
+					tcpHits++
+				}
+			}
+			if tcpHits > 0 {
+				rn.res.Count("tcp_wrong_id_rejected", 1) // the stream reply with a foreign ID was read and refused
+			}
+		}
 		if m.Pre == "wrongq" && hits >= 3 {
 			rn.res.Count("wrongq_rejected_and_retried", 1) // udp, udp, then tcp
 		}
